@@ -89,9 +89,18 @@ def _final_state(prog):
     return st
 
 
+def _build_ops(case):
+    """the building program, with the case's warm-up queries spliced in after its first case['warm_at'] ops
+    (queries in the middle of a history: the answers afterwards must not depend on them)"""
+    prog = list(case["prog"])
+    warm = case.get("warm") or []
+    k = case.get("warm_at", 0)
+    return prog[:k] + [list(w) for w in warm] + prog[k:]
+
+
 def observe(case):
     if case["kind"] == "hist":
-        prog = list(case["prog"]) + [["count_at", 0, x] for x in case["xs"]] + [["quantile", 0, q] for q in case["qs"]]
+        prog = _build_ops(case) + [["count_at", 0, x] for x in case["xs"]] + [["quantile", 0, q] for q in case["qs"]]
         return {"prog": prog, "obs": DI.run_program("f", prog)}
     # profile
     from orso.dataframe import DataFrame
@@ -214,7 +223,7 @@ def _check_estimators(st, xs, cas, qs, qas, total_expected=None):
 def _judge(case, obs):
     if case["kind"] == "hist":
         st = None
-        n_build = len(case["prog"])
+        n_build = len(_build_ops(case))
         for op, ob in zip(obs["prog"][:n_build], obs["obs"][:n_build]):
             if "raise" in ob:
                 return f"building op {op[:2]} raised {ob['raise']}", set()
@@ -286,7 +295,7 @@ def known_still_fails(fid, w):
 
 def nontrivial_key(case, obs):
     if case["kind"] == "hist":
-        n_build = len(case["prog"])
+        n_build = len(_build_ops(case))
         vals = set(o.get("ans") for o in obs["obs"][n_build:] if o.get("ans") is not None)
         return repr(case["prog"]) if len(vals) >= 3 else None
     return repr(case["values"]) if len(set(v for v in case["values"] if v is not None)) >= 3 else None
@@ -301,7 +310,38 @@ def classify(case, obs):
             yield "touches:" + t
 
 
+def _warm_case(rng):
+    """query, then update (exact hits on existing centres, in-place merges, inserts), then query again on the
+    same object: a cached total / cached running sums must not survive the update"""
+    cap = rng.choice([3, 4, 8, 16])
+    h = lambda x: float(x).hex()
+    base = sorted(set(float(rng.randint(-30, 30)) for _ in range(rng.randint(2, cap + 2))))
+    rng.shuffle(base)
+    prog = [["new", 0, cap]] + [["upd", 0, h(v), rng.choice([1, 1, 2, 5])] for v in base]
+    k = len(prog)
+    st = _final_state(prog)
+    centres = [float.fromhex(v) for v, _ in st["bins"]]
+    mn, mx = float.fromhex(st["min"]), float.fromhex(st["max"])
+    warm = [["count_at", 0, h(rng.choice(centres))], ["quantile", 0, h(0.5)], ["count_at", 0, h(mx)], ["quantile", 0, h(rng.random())]]
+    more = []
+    for _ in range(rng.randint(1, 6)):
+        r = rng.random()
+        if r < 0.6:
+            more.append(["upd", 0, h(rng.choice(centres)), rng.choice([1, 3, 10])])          # exact hit
+        elif r < 0.8:
+            more.append(["upd", 0, h(rng.choice(centres) + rng.choice([0.25, -0.25, 0.001])), 1])   # near a centre
+        else:
+            more.append(["upd", 0, h(float(rng.randint(-40, 40))), 1])
+    prog = prog + more
+    st = _final_state(prog)
+    mn, mx = float.fromhex(st["min"]), float.fromhex(st["max"])
+    centres = [float.fromhex(v) for v, _ in st["bins"]]
+    return {"kind": "hist", "prog": prog, "warm_at": k, "warm": warm, "xs": _grid(mn, mx, centres, rng), "qs": _levels(rng)}
+
+
 def _hist_case(rng, tier):
+    if rng.random() < 0.25:
+        return _warm_case(rng)
     for _ in range(20):
         c = C13._program(rng, "f", tier)
         if len(c["prog"]) > 40:
@@ -346,6 +386,10 @@ def corpus():
                                      h(-3.0), "0x1.9986ba874a620p-1"]],
            "xs": [], "qs": [h(1.0), h(0.0), h(0.5), h(math.nextafter(1.0, 0.0))]}
     yield {"kind": "profile", "values": [1, 2, 2, 3, None, 10, 7, 7, 7, 0], "probes": [h(x) for x in (0, 1, 2, 5, 7, 10)]}
+    # query / exact-hit update / query on one object (round-2 seeded change: a cached total went stale)
+    yield {"kind": "hist", "prog": [["new", 0, 4]] + [["upd", 0, h(v), 1] for v in (1, 2, 3, 4, 5)] + [["upd", 0, h(5), 5]],
+           "warm_at": 6, "warm": [["count_at", 0, h(3)], ["quantile", 0, h(0.5)]],
+           "xs": [h(x) for x in (1, 2.5, 3, 4.98, 5)], "qs": [h(q) for q in (0, 0.25, 0.5, 0.75, 1)]}
 
 
 def generate(rng, tier):
@@ -371,6 +415,13 @@ def shrink(case):
             yield dict(case, qs=case["qs"][::2])
             yield dict(case, qs=case["qs"][1::2])
         prog = case["prog"]
+        k = case.get("warm_at", 0)
         for i in range(len(prog) - 1, 0, -1):
             if prog[i][0] in ("upd",):
-                yield dict(case, prog=prog[:i] + prog[i + 1:])
+                c = dict(case, prog=prog[:i] + prog[i + 1:])
+                if case.get("warm") and i < k:
+                    c["warm_at"] = k - 1
+                yield c
+        if case.get("warm") and len(case["warm"]) > 1:
+            yield dict(case, warm=case["warm"][:1])
+            yield dict(case, warm=case["warm"][1:])
